@@ -56,7 +56,11 @@ GQuery(st0) ==
      /\ UNCHANGED vars
      /\ Log([a |-> "query", st |-> st, res |-> Eval(st, data), nsel |-> Cardinality(Sel(st, data)),
               \* what the recorded deviation "SLIMIT per shard" gives with shards of 3 units (1 h)
-              dev3 |-> IF st.slimit > 0 THEN EvalSLimitPerShard(st, data, 3) ELSE <<>>])
+              dev3 |-> IF st.slimit > 0 THEN EvalSLimitPerShard(st, data, 3) ELSE <<>>,
+              \* first() of field s when s is a boolean field (ties on time -> false)
+              resb |-> IF st.fn = "first" /\ st.field = "s" THEN Eval([st EXCEPT !.fn = "firstlow"], data) ELSE <<>>,
+              dev3b |-> IF st.fn = "first" /\ st.field = "s" /\ st.slimit > 0
+                        THEN EvalSLimitPerShard([st EXCEPT !.fn = "firstlow"], data, 3) ELSE <<>>])
 
 RandQuery ==
   \E fn \in {PickSeq(FnBag)} :
